@@ -52,6 +52,12 @@ def oracle(sc, res, seed=0):
     est = sc["est"]
     if res["err"] is not None:
         if S.err_in_dpss(res["err"]):
+            if est == "multi_taper_csd":
+                s1 = {k: v for k, v in sc.items() if k not in ("via_get_spectra", "history")}
+                s1["est"] = "multi_taper_psd"
+                if S.run_scenario(s1)["err"] is None:
+                    return [Fail("C06/multi_taper_csd/diag", "multi_taper_csd raises %r where multi_taper_psd with identical keywords "
+                                 "returns the spectra its diagonal should equal" % res["err"], repr(res["err"]), "diagonal = psd")]
             return []
         return [Fail("C06/%s/exception" % est, "the estimator raised %r" % res["err"], repr(res["err"]), "a matrix")]
     x = res["x"]
